@@ -194,3 +194,42 @@ CHOICE_EQ = Contract(
     ensures=[('same-alternative-and-equal-values', 'result == (hb and ia == ib and eqc)')],
     note='(alternative names are modelled by their indices: getName() is injective on the alternatives of one type)')
 CONTRACTS = CONTRACTS + [CHOICE_EQ]
+
+
+# ---- ... a tagged ANY (the tags on the wire are the field's own) holds the contents octets only ---------------------------------
+def _tagged_any_params(kind):
+    p = any_params('complete')
+
+    def spec(ex, env):
+        if kind == 'type':
+            sts = Obj('TagSet', {}, {'__eq__': lambda ex2, self, o: Bool('tags.equal'), '__ne__': lambda ex2, self, o: Not(Bool('tags.equal'))},
+                      name='asn1Spec.tagSet')
+            return Obj('Any', {'tagSet': sts, '__class__': Obj('type', {}, name='Any-class')}, name='asn1Spec')
+        tm = Obj('TagMap', {}, {'__contains__': lambda ex2, self, k: Bool('tags.equal')}, name='asn1Spec.tagMap')
+        return Obj('TagMap', {'tagMap': tm, '__class__': TAGMAP_CLS}, name='asn1Spec')
+    p['asn1Spec'] = PDerived(spec)
+    p['tagSet'] = PConst(Obj('TagSet', {}, {'__eq__': lambda ex2, self, o: Bool('tags.equal'),
+                                            '__ne__': lambda ex2, self, o: Not(Bool('tags.equal'))}, name='tagSet'))
+    return p
+
+
+TAGMAP_CLS = Obj('type', {}, name='TagMap-class')
+ANY_TAGGED = [Contract(
+    id='ber.decoder::AnyPayloadDecoder.valueDecoder[guided-by-%s,complete]' % kind, file=D, qual='AnyPayloadDecoder.valueDecoder',
+    properties=['C18', 'C13'], is_generator=True, params=_tagged_any_params(kind),
+    globals={'tagmap': {'TagMap': TAGMAP_CLS, '__name__': 'tagmap'}, 'tagsEqual': Bool('tags.equal'),
+             'os': {'SEEK_SET': 0, '__name__': 'os'}},
+    requires=['length >= 0'], calls={'readFromStream': _read_model('complete')},
+    yield_ensures=[
+        # the field's own tags were on the wire: the value is what is inside them
+        ('tagged-any-holds-the-contents', 'tagsEqual ==> last_yield().value == X.sub(substrate.data, old(substrate.pos), '
+                                          'old(substrate.pos) + old(length))'),
+        # other tags: the whole element, header included, is the value (an untagged ANY)
+        ('untagged-any-holds-the-whole-element', '(not tagsEqual) ==> last_yield().value == X.sub(substrate.data, mark, '
+                                                 'old(substrate.pos) + old(length))'),
+        ('consumed', 'substrate.pos == old(substrate.pos) + old(length)')],
+    exit_ensures=[('one-result', 'nyields() == 1')],
+    may_raise={'EndOfStreamError': True},
+    external=['tagged-any-holds-the-contents', 'untagged-any-holds-the-whole-element', 'consumed', 'one-result'])
+    for kind in ('type', 'tagmap')]
+CONTRACTS = CONTRACTS + ANY_TAGGED
